@@ -294,7 +294,7 @@ def set_limits(E, mtu=None):
     return mtu
 
 
-@contract('connection.Packet.setMTU', props=['C09'])
+@contract('connection.Packet.setMTU', props=['C09', 'C05', 'C06'])
 class _:
     def setup(E):
         set_limits(E, E.int('old_MTU', lo=512, hi=1500))
@@ -305,7 +305,7 @@ class _:
     modifies = ['class:connection.Packet.' + a for a in ('MTU', 'MAX_SIZE', 'MAX_PAYLOAD_SIZE', 'MAX_SIZE_CRC', 'MAX_FRAGMENT_SIZE', 'RECV_SIZE')]
 
 
-@lemma('limits-of-the-class-body', props=['C09'])
+@lemma('limits-of-the-class-body', props=['C09', 'C05', 'C06'])
 def _limits_default(E):
     """the constants written in the class body satisfy Limits for the default MTU 1500"""
     return {'default-constants': limits(1500, lambda a: E.ip.class_attr(E.cls(PKT), a)[1])}
